@@ -374,6 +374,9 @@ def r4_processors(chk, repo):
     # ... and what it inspects was recorded by the saver thread on every way out of its handler
     from .c04 import failure_recorded
     failure_recorded(chk, repo, "C06.R4")
+    # termination without failures: the capacity a plugin asks for (to cover its chunk lag) is honoured
+    from .c13 import plugin_capacity
+    plugin_capacity(chk, repo, "C06.R4")
 
     # ---- single thread processor
     s = repo.func("SingleThreadProcessor.iter", SINGLE)
